@@ -28,8 +28,10 @@ def e1(ctx):
         text = text.replace("Thorough = FALSE", "Thorough = TRUE")
     open(vlib.SPEC + "/MC_IvpProtocol_run.cfg", "w").write(text)
     try:
-        r = vlib.tlc("MC_IvpProtocol", cfg="MC_IvpProtocol_run.cfg", workers=6, timeout=1500, xmx="8g",
-                     deque=False, extra=["-coverage", "1"])
+        # thorough: interval lengths up to 12 units (2.3 million states, about 5 minutes with 8 workers; 14 units did not
+        # finish in 25 minutes)
+        r = vlib.tlc("MC_IvpProtocol", cfg="MC_IvpProtocol_run.cfg", workers=8 if thorough else 6, timeout=3600 if thorough else 1500,
+                     xmx="16g" if thorough else "8g", deque=False, extra=["-coverage", "1"])
     finally:
         import os
         os.remove(vlib.SPEC + "/MC_IvpProtocol_run.cfg")
